@@ -96,6 +96,47 @@ func run(t *testing.T, cs caseSpec, onLeak func(string)) (key, desc, harness str
 		var open []waiting
 		var recvMsg func() ([4]byte, string)
 		var want ledger
+		// sendOne transmits one block as an E4 station does: ENQ, EOT, block, answer. If the library
+		// bids for the line at the same instant (an S9 notice it still has to send — it can come a
+		// few hundred ms after the T3 that caused it), the contention is resolved by the book: an
+		// equipment library (master) goes first and this peer yields, takes its block and bids again;
+		// a host library (slave) yields and answers EOT after its own ENQ.
+		sendOne := func(wire []byte) (ans byte, ok bool, errs string) {
+			pe.Write(e4.ENQ)
+			b, got := pe.TakeByte()
+			if !got {
+				w.Advance(gap)
+				b, got = pe.TakeByte()
+			}
+			if got && b == e4.ENQ {
+				if cs.Equip {
+					pe.Write(e4.EOT)
+					w.Advance(gap)
+					raw := pe.Pending()
+					if len(raw) < 13 || len(raw) < 1+int(raw[0])+2 {
+						return 0, false, fmt.Sprintf("contention: the library bid for the line, was granted it and sent %x", raw)
+					}
+					if _, err := e4.Parse(pe.Take(1 + int(raw[0]) + 2)); err != nil {
+						return 0, false, "contention: the library's block: " + err.Error()
+					}
+					pe.Write(e4.ACK)
+					w.Advance(gap)
+					want.send++ // the notice went over the line and was acknowledged
+					pe.Write(e4.ENQ)
+				}
+				b, got = pe.TakeByte()
+				if !got {
+					w.Advance(gap)
+					b, got = pe.TakeByte()
+				}
+			}
+			if !got || b != e4.EOT {
+				return 0, false, fmt.Sprintf("e4 peer: expected EOT, the library wrote %s (present=%v)", peer.CharName(b), got)
+			}
+			pe.Write(wire...)
+			ans, ok = pe.TakeByte()
+			return ans, ok, ""
+		}
 		sendBlocks := func(blocks []e4.Block, dupLast bool) string {
 			// the line must be idle before the peer bids: a transmission the library still has to make
 			// (an S9 notice that the line engine starts a poll later than this harness looked) is taken
@@ -115,9 +156,9 @@ func run(t *testing.T, cs caseSpec, onLeak func(string)) (key, desc, harness str
 					times = 2
 				}
 				for k := 0; k < times; k++ {
-					ans, ok, err := pe.SendBlock(b.Marshal())
-					if err != nil {
-						return err.Error()
+					ans, ok, errs := sendOne(b.Marshal())
+					if errs != "" {
+						return errs
 					}
 					if !ok {
 						w.Advance(gap)
